@@ -239,3 +239,71 @@ pub fn gen_seq(seed: u64, ncases: u64, maxlen: u64, zero_ok: bool, out: &Sink) {
         }
     }
 }
+
+/// E-seq for the exported OrderQueue (C19): push / pop / find / remove / len / is_empty / to_vec,
+/// ids pushed once or re-pushed after removal; queues built from lists. The generator drives a
+/// private copy of the real queue only to learn which ids are queued.
+pub fn gen_queue(seed: u64, ncases: u64, maxlen: u64, out: &Sink) {
+    use std::sync::Arc;
+    let mut r0 = Rng::new(seed ^ 0x5155_4555);
+    for case in 0..ncases {
+        let mut r = r0.fork();
+        let npool = r.range(2, 7);
+        let len = 1 + r.below(maxlen);
+        let mut shadow = pricelevel::OrderQueue::new();
+        let mut ever: Vec<OrderId> = Vec::new();
+        let allow_repush = r.chance(1, 3);
+        out.push(format!("case {case}"));
+        if r.chance(1, 4) {
+            let k = r.below(5);
+            let mut v = Vec::new();
+            for i in 0..k {
+                let id = pool_id(1 + i);
+                v.push(random_order(&mut r, id, 100, true, false));
+                ever.push(id);
+            }
+            out.push(format!("q.fromvec {}", show_list(&v, show_order)));
+            shadow = pricelevel::OrderQueue::from_vec(v.into_iter().map(Arc::new).collect());
+            out.push("q.tovec".to_string());
+        } else {
+            out.push("qnew".to_string());
+        }
+        for _ in 0..len {
+            let live: Vec<OrderId> = shadow.to_vec().iter().map(|o| o.id()).collect();
+            match r.below(100) {
+                0..=34 => {
+                    let cands: Vec<OrderId> = (1..=npool)
+                        .map(pool_id)
+                        .filter(|i| !live.contains(i) && (allow_repush || !ever.contains(i)))
+                        .collect();
+                    if cands.is_empty() { continue; }
+                    let id = *r.pick(&cands);
+                    let o = random_order(&mut r, id, 100, true, false);
+                    out.push(format!("q.push {}", show_order(&o)));
+                    shadow.push(Arc::new(o));
+                    ever.push(id);
+                }
+                35..=54 => {
+                    out.push("q.pop".to_string());
+                    let _ = shadow.pop();
+                }
+                55..=69 => {
+                    let id = if !ever.is_empty() && r.chance(3, 4) { *r.pick(&ever) } else { pool_id(r.range(1, npool + 1)) };
+                    out.push(format!("q.remove {}", show_id(&id)));
+                    let _ = shadow.remove(id);
+                }
+                70..=79 => {
+                    let id = if !ever.is_empty() && r.chance(3, 4) { *r.pick(&ever) } else { pool_id(r.range(1, npool + 1)) };
+                    out.push(format!("q.find {}", show_id(&id)));
+                }
+                80..=86 => out.push("q.len".to_string()),
+                87..=92 => out.push("q.isempty".to_string()),
+                _ => out.push("q.tovec".to_string()),
+            }
+        }
+        for _ in 0..(npool + 1) {
+            out.push("q.pop".to_string());
+        }
+        out.push("q.len".to_string());
+    }
+}
